@@ -307,6 +307,11 @@ def _may_append(chain, m, base_nq, cheap, jordan_ok=True, max_jordan_width=4, de
             return False
         if kind == "power_frac" and seen_exp:
             return False
+        if kind == "exp" and any(x[0] == "power_frac" for x in chain):
+            # exp over a fractional power hides K1 (dagger of the root) inside the exponential, where the
+            # root-of-the-adjoint classifier cannot recognise it: the known finding is observed on chains
+            # without exp, and exp is observed on chains without fractional powers
+            return False
         if n_j >= 1 and not cheap:
             return False
         if n_j >= 2:
